@@ -397,6 +397,10 @@ def run(tier: str) -> int:
     (wd / "Trace_Scale.cfg").write_text("SPECIFICATION TSpec\nCONSTANTS\n  Ops = {}\n  XMaxs = {}\n  BInit = {}\n")
     nacc += _validate(rep, wd, st, [e[0] for e in st], "ScaleTrace", wd / "Trace_Scale.cfg", "traces_scale.json", "scale")
 
+    if tier == "thorough":
+        # every AngularGrid construction made by the repository's angular / atomic-grid tests
+        from .. import record
+        record.judge_suite(rep, wd, "angular", ["src/grid/tests/test_angular.py", "src/grid/tests/test_atomgrid.py"], "angular")
     rep.set("traces_validated_against_impl", len(traces) + len(st))
     rep.set("traces_accepted", nacc)
     rep.sample({"cache_trace": traces[0]})
